@@ -1113,6 +1113,13 @@ def scen_C07(ctx):
         if a != b:
             # the model's copy of the load-factor rule differs: reported, not a condition (DESIGN.md C07)
             ctx.distribution.setdefault('buckets_rule_differs', {})[a] = 1
+    # L_cache: the model of the buffer cache (Cache.v, proved transparent for >= 2 chunks) against the real rabuf
+    import scen_cache as SC
+    rule0 = ctx.rule
+    SC.scen_cache(ctx, ctx.scale(60, 1000), ctx.scale(30, 500))
+    ctx.rule = rule0 + ' || ' + ctx.rule
+    if not [k for k in C.known_findings() if k.get('property') == 'C07']:
+        ctx.known = [k for k in ctx.known if 'permille-below-1000' not in k]
     # known finding D8: PerMille below 1000 on a file that outgrows one chunk
     kf = [k for k in C.known_findings() if k.get('property') == 'C07']
     if kf:
